@@ -248,6 +248,14 @@ def run(ctx: Ctx) -> None:
     from ..core import Alias
     from . import c09
 
+    ctx.rule("C08.R11", "the send lock serialises the writes of ONE connection: it is created per TCPServer instance (in __init__), never shared through the class or the module - otherwise one stalled client blocks the sends of every other connection", floor=2)
+    for mod_, lock_ctor in (("asyncio.tcp_server", "asyncio.Lock"), ("trio.tcp_server", "trio.Lock")):
+        cls_ = repo.cls(mod_, "TCPServer")
+        ini_ = repo.func(mod_, "TCPServer.__init__")
+        per_inst = [n for n in walk_local(ini_) if isinstance(n, ast.Assign) and dotted(n.targets[0]) == "self.send_lock" and isinstance(n.value, ast.Call) and call_name(n.value) == lock_ctor and not guard_atoms(n)]
+        shared = [st for st in cls_.body if isinstance(st, (ast.Assign, ast.AnnAssign)) and dotted(st.targets[0] if isinstance(st, ast.Assign) else st.target) == "send_lock" and getattr(st, "value", None) is not None]
+        shared += [st for st in repo.module(mod_).tree.body if isinstance(st, ast.Assign) and isinstance(st.value, ast.Call) and call_name(st.value) == lock_ctor]
+        ctx.check("C08.R11", f"{mod_}:TCPServer", f"self.send_lock = {lock_ctor}() in __init__, no class/module level lock", len(per_inst) == 1 and not shared, "the send lock is shared between connections: a write waiting on one stalled client holds the lock, so no other connection of the worker can send", shared[0] if shared else ini_)
     c09.run(Alias(ctx, "C08.R9", "pressure abates => the waiting send is released: WINDOW_UPDATE (stream-level, connection-level stream 0, SETTINGS) and RST_STREAM reach unblock + wake-up, and the send task re-consults the tree (same analysis as C09.R3/R4/R6)", only={"C09.R3", "C09.R4", "C09.R6"}))
 
     from . import c17
